@@ -49,12 +49,15 @@ def octet_helpers(modname):
         f = getattr(mod, 'oct2int', None)
         if f is not None and all(f(x) == x for x in (0, 1, 127, 128, 255)):
             ok.add('oct2int')
+        f = getattr(mod, 'ints2octs', None)
+        if f is not None and f((1, 2, 255)) == bytes((1, 2, 255)) and f(()) == b'':
+            ok.add('ints2octs')
     except Exception:  # noqa
         pass
     return ok
 
 
-LEAN_TY = {'int': 'Int', 'bool': 'Bool', 'tup': 'Py.Tup'}
+LEAN_TY = {'int': 'Int', 'bool': 'Bool', 'tup': 'Py.Tup', 'tups': 'List Py.Tup'}
 
 
 def find_function(tree, path):
@@ -95,6 +98,8 @@ class Ctx(object):
         self.ntmp = 0
         self.fuels = list(spec.get('fuel', []))
         self.self_params = {}         # attr -> type
+        self.expr_params = {}         # name -> type (verbatim source expressions turned into parameters)
+        self.ret_in_loop = False
         self.octets = octet_helpers(spec['octets']) if spec.get('octets') else set()
 
     def tmp(self):
@@ -119,6 +124,13 @@ def lit(n):
 # tr_expr returns (lean, type, prelude) ; prelude = list of 'let x ← ...' lines
 
 def tr_expr(cx, env, e):
+    ex = cx.spec.get('exprs', {})
+    if ex and not isinstance(e, (ast.Constant, ast.Name)):
+        u = unparse(e).strip()
+        if u in ex:
+            nm, ty = ex[u]
+            cx.expr_params[nm] = ty
+            return nm, ty, []
     if isinstance(e, ast.Constant):
         if isinstance(e.value, bool):
             return ('true' if e.value else 'false'), 'bool', []
@@ -138,7 +150,9 @@ def tr_expr(cx, env, e):
         if d and d.startswith('self.') and d[5:] in cx.spec.get('self_consts', {}):
             modname, clsname = cx.spec['self_consts'][d[5:]]
             val = getattr(getattr(importlib.import_module(modname), clsname), d[5:])
-            if not isinstance(val, int):
+            if isinstance(val, (bytes, tuple)) and all(isinstance(x, int) for x in val):
+                return '([%s] : Py.Tup)' % ', '.join(lit(x) for x in val), 'tup', []
+            if not isinstance(val, int) or isinstance(val, bool):
                 raise Unsupported('class constant %s is not an int' % d)
             return lit(val), 'int', []
         if d and d.startswith('self.') and d[5:] in cx.spec.get('self', {}):
@@ -295,6 +309,27 @@ def tr_expr(cx, env, e):
                 if tn == 'int' and ts == 'bool':
                     v = cx.tmp()
                     return v, 'tup', pa + pn + ps + ['let %s ← Py.toBytes %s %s %s' % (v, a, n, s)]
+        dcall = dotted(f)
+        if dcall in cx.spec.get('calls', {}):
+            info = cx.spec['calls'][dcall]
+            args = []
+            pre = []
+            for nm in info.get('self', []):
+                pn = 'self_' + nm
+                cx.self_params[pn] = cx.spec['self'][nm]
+                args.append(pn)
+            if e.keywords:
+                raise Unsupported('keyword arguments in call %s' % unparse(e))
+            for a in e.args:
+                v, tv, pv = tr_expr(cx, env, a)
+                args.append(v)
+                pre += pv
+            tmp = cx.tmp()
+            return tmp, info['returns'], pre + ['let %s ← %s %s' % (tmp, info['kernel'], ' '.join(args))]
+        if isinstance(f, ast.Name) and f.id == 'ints2octs' and 'ints2octs' in cx.octets and len(e.args) == 1 and f.id not in env:
+            a, ta, pa = tr_expr(cx, env, e.args[0])
+            if ta == 'tup':
+                return a, 'tup', pa
         if isinstance(f, ast.Name) and f.id == 'int2oct' and 'int2oct' in cx.octets and len(e.args) == 1 and f.id not in env:
             a, ta, pa = tr_expr(cx, env, e.args[0])
             if ta == 'int':
@@ -450,6 +485,8 @@ def tr_block(cx, env, stmts, ret_ty, tail):
         return pi + ['let %s ← Py.delAt %s %s' % (nm, nm, i)] + cont(env)
     if isinstance(s, ast.Return):
         v, tv, pre = tr_expr(cx, env, s.value)
+        if cx.ret_in_loop:
+            return pre + ['pure (Sum.inl %s)' % v]
         return pre + ['pure %s' % v]
     if isinstance(s, ast.Raise):
         return [tr_raise(cx, s)]
@@ -554,44 +591,73 @@ def tr_block(cx, env, stmts, ret_ty, tail):
     if isinstance(s, (ast.While, ast.For)):
         if s.orelse:
             raise Unsupported('loop else')
+        early = False
         for n in ast.walk(s):
-            if isinstance(n, (ast.Break, ast.Continue, ast.Return)):
-                raise Unsupported('break/continue/return inside a loop')
+            if isinstance(n, (ast.Break, ast.Continue)):
+                raise Unsupported('break/continue inside a loop')
+            if isinstance(n, ast.Return):
+                if not isinstance(s, ast.For) or cx.ret_in_loop:
+                    raise Unsupported('return inside a while loop / nested loops')
+                early = True
         cx.nloop += 1
         k = cx.nloop
         fname = '%s_loop%d' % (cx.kname, k)
         body_assigned = assigned(s.body)
         threaded = [n for n in body_assigned if n in env]
         isfor = isinstance(s, ast.For)
+        idxvar = None
         if isfor:
-            if not isinstance(s.target, ast.Name):
+            it_expr = s.iter
+            if (isinstance(s.iter, ast.Call) and isinstance(s.iter.func, ast.Name) and s.iter.func.id == 'enumerate'
+                    and len(s.iter.args) == 1 and not s.iter.keywords and isinstance(s.target, ast.Tuple)
+                    and len(s.target.elts) == 2 and all(isinstance(x, ast.Name) for x in s.target.elts)):
+                idxvar, loopvar = s.target.elts[0].id, s.target.elts[1].id
+                it_expr = s.iter.args[0]
+            elif isinstance(s.target, ast.Name):
+                loopvar = s.target.id
+            else:
                 raise Unsupported('for target')
-            it, tit, pre = tr_expr(cx, env, s.iter)
-            if tit != 'tup':
+            it, tit, pre = tr_expr(cx, env, it_expr)
+            if tit not in ('tup', 'tups'):
                 raise Unsupported('for over %s' % tit)
-            loopvar = s.target.id
-            threaded = [n for n in threaded if n != loopvar]
+            elem_ty = 'int' if tit == 'tup' else 'tup'
+            threaded = [n for n in threaded if n not in (loopvar, idxvar)]
         else:
             pre = []
         reads = names_read(s)
         consts = []
         for n in reads:
-            if n in env and n not in threaded and n not in consts and not (isfor and n == loopvar):
+            if n in env and n not in threaded and n not in consts and not (isfor and n in (loopvar, idxvar)):
                 consts.append(n)
         env_in = dict(env)
         if isfor:
-            env_in[loopvar] = 'int'
+            env_in[loopvar] = elem_ty
+            if idxvar:
+                env_in[idxvar] = 'int'
         rec_args = ' '.join(consts)
-        sig_consts = ''.join(' (%s : %s)' % (n, LEAN_TY[env[n]]) for n in consts)
+        sig_consts = ' «SIG:%s»' % fname + ''.join(' (%s : %s)' % (n, LEAN_TY[env[n]]) for n in consts)
+        rec_args = '«ARGS:%s» ' % fname + rec_args
         ret = ty_of(env, threaded)
         pats = ', '.join(threaded)
         if isfor:
-            rec = lambda e2: ['%s %s rest_ %s' % (fname, rec_args, ' '.join(threaded))]
-            body = tr_block(cx, env_in, s.body, ret_ty, rec)
-            aux = ['def %s%s : Py.Tup → %sPy.M (%s)' % (fname, sig_consts, ''.join(LEAN_TY[env[n]] + ' → ' for n in threaded), ret),
-                   '  | []%s => pure %s' % (''.join(', ' + n for n in threaded), tup_of(threaded) if threaded else '()'),
-                   '  | %s :: rest_%s => do' % (loopvar, ''.join(', ' + n for n in threaded))] + ind(body, 4)
-            call = '%s %s %s %s' % (fname, rec_args, it, ' '.join(threaded))
+            idx_arg = (' (%s + 1)' % idxvar) if idxvar else ''
+            rec = lambda e2: ['%s %s rest_%s %s' % (fname, rec_args, idx_arg, ' '.join(threaded))]
+            if early:
+                cx.ret_in_loop = True
+            try:
+                body = tr_block(cx, env_in, s.body, ret_ty, rec)
+            finally:
+                cx.ret_in_loop = False
+            exit_v = tup_of(threaded) if threaded else '()'
+            if early:
+                ret = 'Sum (%s) (%s)' % (ret_ty, ret)
+                exit_v = 'Sum.inr %s' % exit_v
+            aux = ['def %s%s : %s → %s%sPy.M (%s)' % (fname, sig_consts, 'Py.Tup' if elem_ty == 'int' else 'List Py.Tup',
+                                                     'Int → ' if idxvar else '',
+                                                     ''.join(LEAN_TY[env[n]] + ' → ' for n in threaded), ret),
+                   '  | []%s%s => pure (%s)' % (', _' if idxvar else '', ''.join(', ' + n for n in threaded), exit_v),
+                   '  | %s :: rest_%s%s => do' % (loopvar, (', ' + idxvar) if idxvar else '', ''.join(', ' + n for n in threaded))] + ind(body, 4)
+            call = '%s %s %s%s %s' % (fname, rec_args, it, ' (0 : Int)' if idxvar else '', ' '.join(threaded))
         else:
             c, tc, pc = tr_expr(cx, env_in, s.test)
             c = as_bool(c, tc)
@@ -614,6 +680,10 @@ def tr_block(cx, env, stmts, ret_ty, tail):
             call = '%s %s (%s) %s' % (fname, rec_args, fuel, ' '.join(threaded))
         cx.aux.append('\n'.join(aux))
         # types after the loop: threaded variables keep their types
+        if isfor and early:
+            r_ = cx.tmp()
+            return (pre + ['let %s ← %s' % (r_, call), 'match %s with' % r_, '| .inl v_ => pure v_',
+                           '| .inr %s => do' % (tup_of(threaded) if threaded else '_')] + ind(cont(env)))
         head = ('let %s ← ' % tup_of(threaded)) if threaded else ''
         return pre + [head + call] + cont(env)
     raise Unsupported('statement %s' % unparse(s).splitlines()[0])
@@ -709,8 +779,35 @@ def translate(spec):
     body = slice_body(fn, spec)
     digest = hashlib.sha256('\n'.join(ast.dump(s) for s in body).encode()).hexdigest()[:16]
     lines = tr_block(cx, env, body, spec['returns'], None)
-    selfp = sorted(cx.self_params.items())
+    selfp = sorted(cx.self_params.items()) + sorted(cx.expr_params.items())
     sig = ''.join(' (%s : %s)' % (n, LEAN_TY[t]) for n, t in selfp) + ''.join(' (%s : %s)' % (p, LEAN_TY[t]) for p, t in params)
+    # self/expression parameters used inside an auxiliary (loop) definition - directly or through another auxiliary it
+    # calls - are passed to it explicitly
+    import re as _re
+    extra = dict(selfp)
+    names = [_re.search(r'def (\S+)', a).group(1) for a in cx.aux]
+    uses = {}
+    for nm, a in zip(names, cx.aux):
+        uses[nm] = [p_ for p_ in extra if _re.search(r'(?<![\w.])%s(?![\w])' % _re.escape(p_), a)]
+    changed = True
+    while changed:
+        changed = False
+        for nm, a in zip(names, cx.aux):
+            for other in names:
+                if other != nm and ('«ARGS:%s»' % other) in a:
+                    for p_ in uses[other]:
+                        if p_ not in uses[nm]:
+                            uses[nm].append(p_)
+                            changed = True
+
+    def fill(txt):
+        for nm in names:
+            ps = sorted(uses[nm])
+            txt = txt.replace(' «SIG:%s»' % nm, ''.join(' (%s : %s)' % (p_, LEAN_TY[extra[p_]]) for p_ in ps))
+            txt = txt.replace('«ARGS:%s» ' % nm, ''.join(p_ + ' ' for p_ in ps))
+        return txt
+    cx.aux = [fill(a) for a in cx.aux]
+    lines = [fill(l) for l in lines]
     text = '\n\n'.join(cx.aux)
     if text:
         text += '\n\n'
